@@ -1038,8 +1038,13 @@ def decode_sm_case(code, profile):
             else:
                 pre.append(["engage"])
                 pre.append(["engage", t if tgt > 2 else None, True])
-        if extra == 39:
+        if extra == 39 and pos == 4 and pre and pre[0] == ["engage"] and len(pre) == 1:
+            # engage(); done(); engage(): the request made after done() counts (no ambiguity: done() reset the machine)
+            pre = [["engage"], ["done"], ["engage"]]
+        elif extra == 39:
             pre.insert(pos % (len(pre) + 1), ["done"])
+        elif extra == 38 and pos == 4 and pre and pre[0] == ["engage"] and len(pre) == 1:
+            pre = [["engage"], ["on_disable"], ["engage", names[tgt % len(names)], False]]
         elif extra == 38:
             pre.insert(pos % (len(pre) + 1), ["on_disable"])
         elif extra == 37:
@@ -1087,8 +1092,8 @@ def decode_auto_case(code):
             pre = [["on_enable"]] if i == 0 else []
             if x == 39 and i > 0:
                 pre.append(["done"])
-            elif x == 38 and i > 0:
-                pre.append(["on_disable"])
+            elif x == 38:
+                pre.append(["on_disable"])  # also right after on_enable, before any iteration ran
             elif x == 37 and timed:
                 pre.insert(0, ["dur", timed[tgt % len(timed)], DUR_POOL[dpool], ["nt", "attr"][via]])
             hist.append({"pre": pre, "adv": decode_adv(adv)})
